@@ -11,7 +11,7 @@ rc and the shifts are never written after construction; the conjugations are T(r
 its lever arm from params.current_rc() (the MOVED centre), uses rd.x, rd.y, rd.z for rows 3..5 in that order, the reverse
 variant negates the sign and uses the reference point, and the plane Jacobian carries signum(scalar_projection) to match the
 |.| residual; ParamHandler::set_param copies the raw vector and recomputes every non-static body from its own 6-slice.
-RotationMatrices::from_rotation = from_euler(to_wpr(to_matrix(q))) on every path: no small rotation is short-cut to the identity. Round 5: RcParams::set writes x exactly once and as given; RotationMatrices::from_euler builds its elementary rotations and records r from the angles as given (no wrapping)."""
+RotationMatrices::from_rotation = from_euler(to_wpr(to_matrix(q))) on every path: no small rotation is short-cut to the identity. Round 5: RcParams::set writes x exactly once and as given; RotationMatrices::from_euler builds its elementary rotations and records r from the angles as given (no wrapping). Round 6: point_point_jacobian returns the zero row only under norm_squared < a constant <= 1e-15."""
 NOT_DECIDED = "that any Jacobian entry equals a derivative; that the Euler formulas invert from_euler (only WHICH branch is taken at gimbal lock and what it returns is decided); parameter round-trips (symbolic differentiation of the matrix expressions would be symbolic execution)"
 ASSUMPTIONS = ["nalgebra Isometry product is composition (left factor applied last)"]
 
